@@ -1787,7 +1787,39 @@ pub fn sem_equiv(a: &Sem, b: &Sem, cfg: &Cfg) -> bool {
 
 pub fn blobs_equiv(x: &[u8], y: &[u8], cfg: &Cfg) -> bool {
     match (sem_seq(x, cfg), sem_seq(y, cfg)) {
-        (Ok(a), Ok(b)) => a.len() == b.len() && a.iter().zip(&b).all(|(p, q)| sem_equiv(&p.1, &q.1, cfg)),
+        (Ok(a), Ok(b)) => {
+            if a.len() != b.len() {
+                return false;
+            }
+            // index of the operation a branch at position i lands on (len = the end); the two
+            // byte strings may encode operations with different lengths, so displacements are
+            // compared through the operation they designate
+            let land = |seq: &[(usize, Sem)], total: usize, i: usize, d: i16| -> Option<usize> {
+                let next = if i + 1 < seq.len() { seq[i + 1].0 } else { total };
+                let t = next as i64 + d as i64;
+                if t == total as i64 {
+                    Some(seq.len())
+                } else {
+                    seq.iter().position(|p| p.0 as i64 == t)
+                }
+            };
+            for i in 0..a.len() {
+                match (&a[i].1, &b[i].1) {
+                    (Sem::Skip(d1), Sem::Skip(d2)) | (Sem::Bra(d1), Sem::Bra(d2)) => {
+                        let (l1, l2) = (land(&a, x.len(), i, *d1), land(&b, y.len(), i, *d2));
+                        if l1.is_none() || l1 != l2 {
+                            return false;
+                        }
+                    }
+                    (p, q) => {
+                        if !sem_equiv(p, q, cfg) {
+                            return false;
+                        }
+                    }
+                }
+            }
+            true
+        }
         _ => x == y,
     }
 }
